@@ -1865,6 +1865,21 @@ def sym_method(it, fr, obj, attr, args, kw):
                     hi = lo
                 return SBytes('raw', n=z3.IntVal(hi - lo), bs=[byte_at(obj, j) for j in range(lo, hi)], name=getattr(obj, 'name', '') + '.' + attr)
             return SBytes('raw', n=ln - lo, bs=[byte_at(obj, j) for j in range(lo, C)], name=getattr(obj, 'name', '') + '.' + attr)
+        if attr == 'replace' and unrollable(obj) and len(args) in (2, 3) and not kw and all(isinstance(a, (bytes, bytearray)) for a in args[:2]) and args[0] \
+                and (len(args) == 2 or args[2] == -1) and cap(obj) <= 16:
+            # decided position by position (one fork per possible match): exact, bounded by the template's capacity
+            old, new = bytes(args[0]), bytes(args[1])
+            C, ln = cap(obj), bytes_len(it, obj)
+            out, i, hits = [], 0, []
+            while i < C and eng.fork(ln > i):
+                if i + len(old) <= C and eng.fork(z3.And(ln >= i + len(old), *[byte_at(obj, i + j) == old[j] for j in range(len(old))])):
+                    out.extend(z3.IntVal(b) for b in new)
+                    hits.append(i)
+                    i += len(old)
+                else:
+                    out.append(byte_at(obj, i))
+                    i += 1
+            return SBytes('raw', n=z3.IntVal(len(out)), bs=out, name=(getattr(obj, 'name', '') or 'b') + f'.replace({old.hex()},{new.hex()})@{i}:{hits}')
         if attr in ('rstrip', 'lstrip', 'strip') and obj.kind in ('keyraw', 'pubraw', 'digest', 'sign') and len(args) <= 1 and not kw:
             # opaque fixed-length bytes: either nothing is stripped, or the result is out of reach of the model
             if eng.fork(z3.Bool(f'strippable#{attr}#{bytes_desc_name(obj)}')):
